@@ -1172,7 +1172,9 @@ class Folder:
                 vals = [list(self.fold(args[0]))] + [self.fold(a) for a in args[1:]]
             else:
                 vals = [list(self.fold(a)) for a in args]
-            out_ = list(getattr(_it, name.split(".")[1])(*vals, **kw))
+            if any(isinstance(v_, int) and not isinstance(v_, bool) and v_ > 100000 for v_ in list(vals[1:]) + list(kw.values())):
+                raise TooLarge("%s: every combination has more than 100000 members" % unparse(e)[:60])
+            out_ = list(_it.islice(getattr(_it, name.split(".")[1])(*vals, **kw), 200001))
             if len(out_) > 200000:
                 raise TooLarge("%s enumerates more than 200000 combinations" % unparse(e)[:60])
             return out_
